@@ -163,3 +163,20 @@ func Run(harnesses map[string]func()) {
 // [-12,+14] and returns it in hours. Natively the replay runner sets $TZ accordingly before the
 // process starts; the vector entry is consumed here.
 func SymbolicTZ() int { return int(int64(next("TZ-offset-hours", "tz"))) }
+
+// RepoFile returns the content of a file of the repository (path relative to the module root); used to
+// give //go:embed variables their value under the symbolic executor, which does not see linker data.
+func RepoFile(rel string) string {
+	dir, _ := os.Getwd()
+	for i := 0; i < 8; i++ {
+		if _, err := os.Stat(dir + "/go.mod"); err == nil {
+			break
+		}
+		dir = dir + "/.."
+	}
+	data, err := os.ReadFile(dir + "/" + rel)
+	if err != nil {
+		panic(err)
+	}
+	return string(data)
+}
